@@ -148,3 +148,562 @@ Proof.
   destruct (fmt_d 3 m) as [|c0 r0]; [discriminate Hl|]. rewrite Hp. cbn [bind].
   rewrite wf_fx0, wf_fy0, wf_fz0. cbn [bind]. reflexivity.
 Qed.
+
+(** ** c. bond line *)
+Definition stereo_of (i j : Z) (st : str) : list (Z * Z * Z) :=
+  if str_eqb st (L "1") then [(i - 1, j - 1, 1)] else if str_eqb st (L "6") then [(i - 1, j - 1, -1)] else [].
+
+Lemma v2_bond_roundtrip i j o st t : 1 <= i <= 999 -> 1 <= j <= 999 -> 0 <= o <= 8 ->
+  In st [L "0"; L "1"; L "6"] ->
+  v2_parse_bond (v2_bond_line i j o st ++ t) = Ok ((i - 1, j - 1, o), stereo_of i j st, []).
+Proof.
+  intros Hi Hj Ho Hst.
+  assert (Hlst : length st = 1%nat) by (cbn in Hst; destruct Hst as [<-|[<-|[<-|[]]]]; reflexivity).
+  assert (Hlz : length (zstr o) = 1%nat) by (rewrite zstr_digit by lia; reflexivity).
+  assert (Hpo : py_int (L "  " ++ zstr o) = Ok o).
+  { rewrite <- (app_nil_r (zstr o)). apply py_int_padded; repeat constructor. }
+  unfold v2_bond_line. rewrite <- !app_assoc.
+  match goal with |- v2_parse_bond ?l = _ => set (line := l) end.
+  assert (F1 : slice 0 3 line = fmt_d 3 i) by (subst line; apply slice_0_app; apply fmt_d3_len; lia).
+  assert (F2 : slice 3 6 line = fmt_d 3 j) by (subst line; sdrop 3%nat; apply slice_0_app; apply fmt_d3_len; lia).
+  assert (F3 : slice 6 9 line = L "  " ++ zstr o).
+  { subst line. sdrop 3%nat. sdrop 3%nat. rewrite (app_assoc (L "  ") (zstr o)). apply slice_0_app.
+    rewrite app_length, Hlz. reflexivity. }
+  assert (F4 : slice 9 12 line = L "  " ++ st).
+  { subst line. sdrop 3%nat. sdrop 3%nat. sdrop 2%nat. sdrop 1%nat. rewrite (app_assoc (L "  ") st). apply slice_0_app.
+    rewrite app_length, Hlst. reflexivity. }
+  unfold v2_parse_bond. rewrite F1, F2, F3, F4, !py_int_fmt_d, Hpo. cbn [bind]. cbv zeta.
+  replace (o =? 9) with false by (symmetry; apply Z.eqb_neq; lia).
+  unfold stereo_of.
+  cbn in Hst. destruct Hst as [<-|[<-|[<-|[]]]]; reflexivity.
+Qed.
+
+Corollary v2_bond_roundtrip_plain i j o t : 1 <= i <= 999 -> 1 <= j <= 999 -> 0 <= o <= 8 ->
+  v2_parse_bond (v2_bond_line i j o (L "0") ++ t) = Ok ((i - 1, j - 1, o), [], []).
+Proof. intros. apply v2_bond_roundtrip; cbn; auto. Qed.
+Corollary v2_bond_roundtrip_up i j o t : 1 <= i <= 999 -> 1 <= j <= 999 -> 0 <= o <= 8 ->
+  v2_parse_bond (v2_bond_line i j o (L "1") ++ t) = Ok ((i - 1, j - 1, o), [(i - 1, j - 1, 1)], []).
+Proof. intros. apply v2_bond_roundtrip; cbn; auto. Qed.
+Corollary v2_bond_roundtrip_down i j o t : 1 <= i <= 999 -> 1 <= j <= 999 -> 0 <= o <= 8 ->
+  v2_parse_bond (v2_bond_line i j o (L "6") ++ t) = Ok ((i - 1, j - 1, o), [(i - 1, j - 1, -1)], []).
+Proof. intros. apply v2_bond_roundtrip; cbn; auto. Qed.
+
+(** ** d. property lines *)
+Ltac closed_string_eqb :=
+  repeat match goal with |- context [String.eqb ?a ?b] =>
+    let r := eval vm_compute in (String.eqb a b) in change (String.eqb a b) with r end.
+
+Lemma v2_prop_set st line attr setter n v :
+  st_done st = false ->
+  startswith (L "M  END") line = false ->
+  startswith (L "M  ALS") line = false ->
+  startswith (L "M  ISO") line || startswith (L "M  RAD") line || startswith (L "M  CHG") line = true ->
+  sget_last ctf_data [nth 3 line sp] = Some attr ->
+  (attr = "is_radical"%string /\ setter = (fun _ : Z => set_rad)) \/ (attr = "charge"%string /\ setter = set_chg) \/
+  (attr = "isotope"%string /\ setter = set_iso) ->
+  py_int (slice 6 9 line) = Ok 1 ->
+  py_int (slice 10 13 line) = Ok n ->
+  py_int (slice 14 17 line) = Ok v ->
+  1 <= n <= Z.of_nat (length (st_atoms st)) ->
+  v2_prop_line st line = Ok (mk_st (update_nth (Z.to_nat (n - 1)) (setter v) (st_atoms st)) (st_dat st) (st_log st) false).
+Proof.
+  intros Hd H1 H2 H3 H4 H5 H6 H7 H8 Hn.
+  unfold v2_prop_line. rewrite Hd, H1, H2, H3, H4, H6. cbn [of_opt bind].
+  change (nat_range (Z.to_nat 1)) with [0%nat]. cbn [foldM]. cbv zeta.
+  change (10 + 0 * 8)%nat with 10%nat. change (13 + 0 * 8)%nat with 13%nat.
+  change (14 + 0 * 8)%nat with 14%nat. change (17 + 0 * 8)%nat with 17%nat.
+  destruct H5 as [[-> ->]|[[-> ->]|[-> ->]]]; closed_string_eqb; cbn [bind]; rewrite H7; cbn [bind];
+  (replace ((n =? 0) || (Z.of_nat (length (st_atoms st)) <? n)) with false
+    by (symmetry; apply orb_false_intro; [apply Z.eqb_neq | apply Z.ltb_ge]; lia));
+  (replace (n <? 0) with false by (symmetry; apply Z.ltb_ge; lia));
+  rewrite H8; cbn [bind]; reflexivity.
+Qed.
+
+Ltac prop_prefix_facts :=
+  match goal with
+  | |- startswith _ (_ ++ _) = _ => rewrite startswith_app_long by (cbn; lia); reflexivity
+  | |- _ || _ || _ = true => rewrite !startswith_app_long by (cbn; lia); reflexivity
+  | |- sget_last ctf_data [nth 3 (_ ++ _) sp] = _ => rewrite app_nth1 by (cbn; lia); reflexivity
+  | |- py_int (slice 6 9 (_ ++ _)) = _ => rewrite slice_app_l by (cbn; lia); vm_compute; reflexivity
+  end.
+
+Lemma v2_prop_iso st n v t : st_done st = false -> 1 <= n <= Z.of_nat (length (st_atoms st)) -> n <= 999 -> 0 <= v <= 999 ->
+  v2_prop_line st (L "M  ISO  1 " ++ fmt_d 3 n ++ [sp] ++ fmt_d 3 v ++ t) =
+  Ok (mk_st (update_nth (Z.to_nat (n - 1)) (set_iso v) (st_atoms st)) (st_dat st) (st_log st) false).
+Proof.
+  intros Hd Hn Hn' Hv.
+  apply (v2_prop_set st _ "isotope"%string set_iso n v); try assumption; try prop_prefix_facts.
+  - right. right. split; reflexivity.
+  - sdrop 10%nat. rewrite slice_0_app by (apply fmt_d3_len; lia). apply py_int_fmt_d.
+  - sdrop 10%nat. sdrop 3%nat. sdrop 1%nat. rewrite slice_0_app by (apply fmt_d3_len; lia). apply py_int_fmt_d.
+Qed.
+
+Lemma v2_prop_chg st n v t : st_done st = false -> 1 <= n <= Z.of_nat (length (st_atoms st)) -> n <= 999 -> -99 <= v <= 999 ->
+  v2_prop_line st (L "M  CHG  1 " ++ fmt_d 3 n ++ [sp] ++ fmt_d 3 v ++ t) =
+  Ok (mk_st (update_nth (Z.to_nat (n - 1)) (set_chg v) (st_atoms st)) (st_dat st) (st_log st) false).
+Proof.
+  intros Hd Hn Hn' Hv.
+  apply (v2_prop_set st _ "charge"%string set_chg n v); try assumption; try prop_prefix_facts.
+  - right. left. split; reflexivity.
+  - sdrop 10%nat. rewrite slice_0_app by (apply fmt_d3_len; lia). apply py_int_fmt_d.
+  - sdrop 10%nat. sdrop 3%nat. sdrop 1%nat. rewrite slice_0_app by (apply fmt_d3_len; lia). apply py_int_fmt_d.
+Qed.
+
+Lemma v2_prop_rad st n t : st_done st = false -> 1 <= n <= Z.of_nat (length (st_atoms st)) -> n <= 999 ->
+  v2_prop_line st (L "M  RAD  1 " ++ fmt_d 3 n ++ L "   2" ++ t) =
+  Ok (mk_st (update_nth (Z.to_nat (n - 1)) set_rad (st_atoms st)) (st_dat st) (st_log st) false).
+Proof.
+  intros Hd Hn Hn'.
+  apply (v2_prop_set st _ "is_radical"%string (fun _ : Z => set_rad) n 2); try assumption; try prop_prefix_facts.
+  - left. split; reflexivity.
+  - sdrop 10%nat. rewrite slice_0_app by (apply fmt_d3_len; lia). apply py_int_fmt_d.
+  - sdrop 10%nat. sdrop 3%nat. rewrite slice_app_l by (cbn; lia). vm_compute. reflexivity.
+Qed.
+
+Lemma v2_prop_end st t : st_done st = false ->
+  v2_prop_line st (L "M  END" ++ t) = Ok (mk_st (st_atoms st) (st_dat st) (st_log st) true).
+Proof. intros Hd. unfold v2_prop_line. rewrite Hd, startswith_app. reflexivity. Qed.
+
+Lemma v2_prop_done st x : st_done st = true -> v2_prop_line st x = Ok st.
+Proof. intros Hd. unfold v2_prop_line. rewrite Hd. reflexivity. Qed.
+
+(* ================================================================================================ *)
+(** * Part C: the block round trip *)
+
+Fixpoint map2 {A B C} (f : A -> B -> C) (l : list A) (m : list B) : list C :=
+  match l, m with a :: l', b :: m' => f a b :: map2 f l' m' | _, _ => [] end.
+
+Lemma mapM_app {A B} (f : A -> pyres B) l1 l2 r1 r2 :
+  mapM f l1 = Ok r1 -> mapM f l2 = Ok r2 -> mapM f (l1 ++ l2) = Ok (r1 ++ r2).
+Proof.
+  revert r1. induction l1 as [|x l1 IH]; intros r1 H1 H2; cbn [app mapM] in *.
+  - inversion H1. exact H2.
+  - destruct (f x) as [y|e]; cbn [bind] in *; [|discriminate].
+    destruct (mapM f l1) as [ys|e]; cbn [bind] in *; [|discriminate].
+    inversion H1. rewrite (IH ys eq_refl H2). reflexivity.
+Qed.
+
+(* a list of records written line by line and parsed back line by line *)
+Lemma mapM_write_parse {A B} (w : A -> pyres str) (p : str -> pyres B) (g : A -> B) l :
+  Forall (fun x => exists line, w x = Ok line /\ p (add_nl line) = Ok (g x)) l ->
+  exists ls, mapM w l = Ok ls /\ length ls = length l /\ mapM p (map add_nl ls) = Ok (map g l).
+Proof.
+  induction 1 as [|x l [line [Hw Hp]] _ [ls [H1 [H2 H3]]]].
+  - exists []. repeat split.
+  - exists (line :: ls). cbn [mapM map length]. rewrite Hw, H1, Hp, H3, H2. repeat split.
+Qed.
+Lemma mapM_write_parse2 {A F B} (w : A -> pyres str) (p : str -> pyres B) (g : A -> F -> B) l fs :
+  Forall2 (fun x f => exists line, w x = Ok line /\ p (add_nl line) = Ok (g x f)) l fs ->
+  exists ls, mapM w l = Ok ls /\ length ls = length l /\ mapM p (map add_nl ls) = Ok (map2 g l fs).
+Proof.
+  induction 1 as [|x f l fs [line [Hw Hp]] _ [ls [H1 [H2 H3]]]].
+  - exists []. repeat split.
+  - exists (line :: ls). cbn [mapM map map2 length]. rewrite Hw, H1, Hp, H3, H2. repeat split.
+Qed.
+
+Lemma lslice_mid {A} (pre f r : list A) n k : length pre = n -> length f = k -> lslice n (n + k) (pre ++ f ++ r) = f.
+Proof.
+  intros Hp Hf. rewrite (lslice_drop pre (f ++ r) n) by lia.
+  replace (n - n)%nat with 0%nat by lia. replace (n + k - n)%nat with k by lia. apply lslice_0_app. exact Hf.
+Qed.
+
+(** ** positions of atom numbers *)
+Lemma zget_last_notin {V} ks (vs : list V) n : ~ In n ks -> zget_last (combine ks vs) n = None.
+Proof.
+  revert vs. induction ks as [|k ks IH]; intros vs H; [reflexivity|]. destruct vs as [|v vs]; [reflexivity|].
+  cbn [combine zget_last]. rewrite IH by (intros Hi; apply H; right; exact Hi).
+  replace (n =? k) with false; [reflexivity|]. symmetry. apply Z.eqb_neq. intros ->. apply H. left. reflexivity.
+Qed.
+Lemma index_from_notin n ks s : ~ In n ks -> index_from n ks s = None.
+Proof.
+  revert s. induction ks as [|k ks IH]; intros s H; [reflexivity|]. cbn [index_from].
+  replace (n =? k) with false; [apply IH; intros Hi; apply H; right; exact Hi|].
+  symmetry. apply Z.eqb_neq. intros ->. apply H. left. reflexivity.
+Qed.
+Lemma zget_last_index ks : forall s n, NoDup ks -> zget_last (combine ks (zrange_from s (length ks))) n = index_from n ks s.
+Proof.
+  induction ks as [|k ks IH]; intros s n H; [reflexivity|]. inversion H as [|? ? Hk Hks]; subst.
+  cbn [length zrange_from combine zget_last index_from]. rewrite IH by exact Hks.
+  destruct (n =? k) eqn:E.
+  - apply Z.eqb_eq in E. subst. rewrite index_from_notin by exact Hk. reflexivity.
+  - destruct (index_from n ks (s + 1)); reflexivity.
+Qed.
+Lemma index_from_bounds n ks : forall s p, index_from n ks s = Some p -> s <= p < s + Z.of_nat (length ks).
+Proof.
+  induction ks as [|k ks IH]; intros s p H; [discriminate|]. cbn [index_from] in H. cbn [length]. rewrite Nat2Z.inj_succ.
+  destruct (n =? k); [inversion H; lia|]. apply IH in H. lia.
+Qed.
+Lemma index_from_in n ks : forall s, In n ks -> exists p, index_from n ks s = Some p.
+Proof.
+  induction ks as [|k ks IH]; intros s H; [contradiction|]. cbn [index_from].
+  destruct (n =? k) eqn:E; [eexists; reflexivity|]. apply IH. destruct H as [->|H]; [rewrite Z.eqb_refl in E; discriminate | exact H].
+Qed.
+
+(* 1-based position of the atom number n in the container (0 when absent) *)
+Definition pos (atoms : list watom) (n : Z) : Z :=
+  match index_from n (map wa_num atoms) 1 with Some p => p | None => 0 end.
+
+Lemma idx_pos atoms n : NoDup (map wa_num atoms) -> In n (map wa_num atoms) ->
+  idx (index_map atoms) n = Ok (pos atoms n) /\ 1 <= pos atoms n <= Z.of_nat (length atoms).
+Proof.
+  intros Hnd Hin. unfold idx, index_map, pos. rewrite <- (map_length wa_num atoms).
+  rewrite zget_last_index by exact Hnd.
+  destruct (index_from_in n (map wa_num atoms) 1 Hin) as [p Hp]. rewrite Hp. cbn [of_opt].
+  apply index_from_bounds in Hp. split; [reflexivity | lia].
+Qed.
+
+Lemma bond_order_in bonds n m o : bond_order bonds n m = Ok o -> exists a b, In (a, b, o) bonds.
+Proof.
+  induction bonds as [|[[a b] o'] bonds IH]; intros H; [discriminate|]. cbn [bond_order] in H.
+  destruct (((a =? n) && (b =? m)) || ((a =? m) && (b =? n))).
+  - inversion H; subst. exists a, b. left. reflexivity.
+  - destruct (IH H) as [a' [b' Hi]]. exists a', b'. right. exact Hi.
+Qed.
+Definition ord (bonds : list (Z * Z * Z)) (n m : Z) : Z := match bond_order bonds n m with Ok o => o | Err _ => 0 end.
+
+(** ** bond block *)
+Definition bond_ok (atoms : list watom) (b : Z * Z * Z) : Prop :=
+  In (fst (fst b)) (map wa_num atoms) /\ In (snd (fst b)) (map wa_num atoms) /\ 0 <= snd b <= 8.
+Definition wedge_ok (atoms : list watom) (bonds : list (Z * Z * Z)) (w : Z * Z * Z) : Prop :=
+  In (fst (fst w)) (map wa_num atoms) /\ In (snd (fst w)) (map wa_num atoms) /\
+  exists o, bond_order bonds (fst (fst w)) (snd (fst w)) = Ok o.
+
+Definition exp_wedge_bond (atoms : list watom) (bonds : list (Z * Z * Z)) (w : Z * Z * Z) : Z * Z * Z :=
+  (pos atoms (fst (fst w)) - 1, pos atoms (snd (fst w)) - 1, ord bonds (fst (fst w)) (snd (fst w))).
+Definition exp_wedge_stereo (atoms : list watom) (w : Z * Z * Z) : Z * Z * Z :=
+  (pos atoms (fst (fst w)) - 1, pos atoms (snd (fst w)) - 1, if snd w =? 1 then 1 else -1).
+Definition exp_plain_bond (atoms : list watom) (b : Z * Z * Z) : Z * Z * Z :=
+  (pos atoms (fst (fst b)) - 1, pos atoms (snd (fst b)) - 1, snd b).
+
+Lemma wedge_line_roundtrip atoms bonds w t :
+  NoDup (map wa_num atoms) -> (length atoms <= 999)%nat -> Forall (bond_ok atoms) bonds -> wedge_ok atoms bonds w ->
+  exists line, v2_wedge_line (index_map atoms) bonds w = Ok line /\
+    v2_parse_bond (line ++ t) = Ok (exp_wedge_bond atoms bonds w, [exp_wedge_stereo atoms w], []).
+Proof.
+  intros Hnd Hna Hb [Hn [Hm [o Ho]]]. destruct w as [[n m] s]. cbn [fst snd] in *.
+  destruct (idx_pos atoms n Hnd Hn) as [Ei Hi]. destruct (idx_pos atoms m Hnd Hm) as [Ej Hj].
+  assert (Hor : 0 <= o <= 8).
+  { destruct (bond_order_in _ _ _ _ Ho) as [a [b Hin]]. rewrite Forall_forall in Hb. apply Hb in Hin. destruct Hin as [_ [_ H]]. exact H. }
+  unfold v2_wedge_line. rewrite Ei, Ej, Ho. cbn [bind]. eexists. split; [reflexivity|].
+  unfold exp_wedge_bond, exp_wedge_stereo, ord. cbn [fst snd]. rewrite Ho.
+  destruct (s =? 1); [apply v2_bond_roundtrip_up | apply v2_bond_roundtrip_down]; lia.
+Qed.
+
+Lemma plain_line_roundtrip atoms b t :
+  NoDup (map wa_num atoms) -> (length atoms <= 999)%nat -> bond_ok atoms b ->
+  exists line, v2_plain_line (index_map atoms) b = Ok line /\
+    v2_parse_bond (line ++ t) = Ok (exp_plain_bond atoms b, [], []).
+Proof.
+  intros Hnd Hna [Hn [Hm Ho]]. destruct b as [[n m] o]. cbn [fst snd] in *.
+  destruct (idx_pos atoms n Hnd Hn) as [Ei Hi]. destruct (idx_pos atoms m Hnd Hm) as [Ej Hj].
+  unfold v2_plain_line. rewrite Ei, Ej. cbn [bind]. eexists. split; [reflexivity|].
+  unfold exp_plain_bond. cbn [fst snd]. apply v2_bond_roundtrip_plain; lia.
+Qed.
+
+Lemma concat_map_nil {A B} (l : list A) : concat (map (fun _ : A => @nil B) l) = [].
+Proof. induction l; cbn; auto. Qed.
+Lemma concat_map_single {A B} (h : A -> B) (l : list A) : concat (map (fun x => [h x]) l) = map h l.
+Proof. induction l as [|x l IH]; cbn; [reflexivity|]. rewrite IH. reflexivity. Qed.
+
+(** ** property block *)
+Definition iso_ok (a : watom) : Prop := match wa_iso a with Some v => 0 <= v <= 999 | None => True end.
+Definition wf_atom (a : watom) (f : fval * fval * fval) : Prop :=
+  wf_watom a (fst (fst f)) (snd (fst f)) (snd f) /\ iso_ok a.
+
+Definition raw_atom3 (mapping : bool) (a : watom) (f : fval * fval * fval) : patom :=
+  raw_atom mapping a (fst (fst f)) (snd (fst f)) (snd f).
+Definition expected_atom (mapping : bool) (a : watom) (f : fval * fval * fval) : patom :=
+  mk_patom (wa_sym a) (wa_chg a) (if iso_truthy (wa_iso a) then wa_iso a else None) (if mapping then wa_num a else 0)
+           (fst (fst f)) (snd (fst f)) (snd f) None (wa_rad a) None.
+
+Section Steps.
+  Variables (pre : list patom) (x : patom) (rest : list patom) (d : list (Z * sgroup)) (lg : list str) (n : Z).
+  Hypothesis Hn : n = 1 + Z.of_nat (length pre).
+  Hypothesis Hn' : n <= 999.
+
+  Let Hlen : 1 <= n <= Z.of_nat (length (pre ++ x :: rest)).
+  Proof. rewrite app_length. cbn [length]. lia. Qed.
+  Let Hidx : Z.to_nat (n - 1) = length pre.
+  Proof. lia. Qed.
+
+  Lemma step_iso v t : 0 <= v <= 999 ->
+    v2_prop_line (mk_st (pre ++ x :: rest) d lg false) (L "M  ISO  1 " ++ fmt_d 3 n ++ [sp] ++ fmt_d 3 v ++ t) =
+    Ok (mk_st (pre ++ set_iso v x :: rest) d lg false).
+  Proof.
+    intros Hv. rewrite v2_prop_iso by (try reflexivity; try exact Hlen; lia).
+    cbn [st_atoms st_dat st_log]. rewrite Hidx, update_nth_app. reflexivity.
+  Qed.
+  Lemma step_chg v t : -99 <= v <= 999 ->
+    v2_prop_line (mk_st (pre ++ x :: rest) d lg false) (L "M  CHG  1 " ++ fmt_d 3 n ++ [sp] ++ fmt_d 3 v ++ t) =
+    Ok (mk_st (pre ++ set_chg v x :: rest) d lg false).
+  Proof.
+    intros Hv. rewrite v2_prop_chg by (try reflexivity; try exact Hlen; lia).
+    cbn [st_atoms st_dat st_log]. rewrite Hidx, update_nth_app. reflexivity.
+  Qed.
+  Lemma step_rad t :
+    v2_prop_line (mk_st (pre ++ x :: rest) d lg false) (L "M  RAD  1 " ++ fmt_d 3 n ++ L "   2" ++ t) =
+    Ok (mk_st (pre ++ set_rad x :: rest) d lg false).
+  Proof.
+    rewrite v2_prop_rad by (try reflexivity; try exact Hlen; lia).
+    cbn [st_atoms st_dat st_log]. rewrite Hidx, update_nth_app. reflexivity.
+  Qed.
+End Steps.
+
+(* what the property lines of one atom do to its parsed record *)
+Definition apply_props (a : watom) (x : patom) : patom :=
+  let x1 := if iso_truthy (wa_iso a) then set_iso (iso_val (wa_iso a)) x else x in
+  let x2 := if wa_rad a then set_rad x1 else x1 in
+  if (wa_chg a =? -4) || (wa_chg a =? 4) then set_chg (wa_chg a) x2 else x2.
+
+Lemma apply_props_raw mapping a f : apply_props a (raw_atom3 mapping a f) = expected_atom mapping a f.
+Proof.
+  unfold apply_props, raw_atom3, raw_atom, expected_atom. rewrite (orb_comm (wa_chg a =? 4)).
+  destruct (wa_iso a) as [v|]; cbn [iso_truthy iso_val]; [destruct (negb (v =? 0))|];
+  destruct (wa_rad a); destruct ((wa_chg a =? -4) || (wa_chg a =? 4)); reflexivity.
+Qed.
+
+Lemma foldM_opt_line (b : bool) line more s s' :
+  (b = true -> v2_prop_line s (add_nl line) = Ok s') -> (b = false -> s' = s) ->
+  foldM v2_prop_line (map add_nl (if b then [line] else []) ++ more) s = foldM v2_prop_line more s'.
+Proof.
+  destruct b; intros H1 H2; cbn [map app foldM].
+  - rewrite H1 by reflexivity. reflexivity.
+  - rewrite H2 by reflexivity. reflexivity.
+Qed.
+
+Lemma props_atom a pre x rest d lg n more :
+  n = 1 + Z.of_nat (length pre) -> n <= 999 -> iso_ok a -> -4 <= wa_chg a <= 4 ->
+  foldM v2_prop_line (map add_nl (v2_prop_lines n a) ++ more) (mk_st (pre ++ x :: rest) d lg false) =
+  foldM v2_prop_line more (mk_st (pre ++ apply_props a x :: rest) d lg false).
+Proof.
+  intros Hn Hn' Hi Hc. unfold v2_prop_lines, apply_props. cbv zeta. rewrite !map_app, <- !app_assoc.
+  assert (Hv : iso_truthy (wa_iso a) = true -> 0 <= iso_val (wa_iso a) <= 999).
+  { unfold iso_ok in Hi. destruct (wa_iso a); cbn; [intros _; exact Hi | discriminate]. }
+  set (x1 := if iso_truthy (wa_iso a) then set_iso (iso_val (wa_iso a)) x else x).
+  set (x2 := if wa_rad a then set_rad x1 else x1).
+  rewrite (foldM_opt_line (iso_truthy (wa_iso a)) _ _ _ (mk_st (pre ++ x1 :: rest) d lg false)).
+  2:{ intros E. subst x1. rewrite E. unfold add_nl. rewrite <- !app_assoc. apply step_iso; auto. }
+  2:{ intros E. subst x1. rewrite E. reflexivity. }
+  rewrite (foldM_opt_line (wa_rad a) _ _ _ (mk_st (pre ++ x2 :: rest) d lg false)).
+  2:{ intros E. subst x2. rewrite E. unfold add_nl. rewrite <- !app_assoc. apply step_rad; auto. }
+  2:{ intros E. subst x2. rewrite E. reflexivity. }
+  apply foldM_opt_line.
+  - intros E. rewrite E. unfold add_nl. rewrite <- !app_assoc. apply step_chg; auto; lia.
+  - intros E. rewrite E. reflexivity.
+Qed.
+
+Definition prop_lines_of (start : Z) (atoms : list watom) : list str :=
+  concat (map (fun na => v2_prop_lines (fst na) (snd na)) (combine (zrange_from start (length atoms)) atoms)).
+
+Lemma props_block mapping d lg atoms fs : Forall2 wf_atom atoms fs -> forall pre more,
+  Z.of_nat (length pre + length atoms) <= 999 ->
+  foldM v2_prop_line (map add_nl (prop_lines_of (1 + Z.of_nat (length pre)) atoms) ++ more)
+        (mk_st (pre ++ map2 (raw_atom3 mapping) atoms fs) d lg false) =
+  foldM v2_prop_line more (mk_st (pre ++ map2 (expected_atom mapping) atoms fs) d lg false).
+Proof.
+  induction 1 as [|a f atoms fs [Hw Hi] _ IH]; intros pre more Hlen.
+  - cbn [prop_lines_of map2 map app]. reflexivity.
+  - unfold prop_lines_of. cbn [length zrange_from combine map concat fst snd map2].
+    change (concat (map (fun na => v2_prop_lines (fst na) (snd na))
+                        (combine (zrange_from (1 + Z.of_nat (length pre) + 1) (length atoms)) atoms)))
+      with (prop_lines_of (1 + Z.of_nat (length pre) + 1) atoms).
+    rewrite map_app, <- app_assoc.
+    cbn [length] in Hlen.
+    rewrite (props_atom a pre _ _ d lg (1 + Z.of_nat (length pre))) by (try reflexivity; try exact Hi; try (destruct Hw; assumption); lia).
+    rewrite apply_props_raw.
+    specialize (IH (pre ++ [expected_atom mapping a f]) more).
+    rewrite app_length in IH. cbn [length] in IH. rewrite <- !app_assoc in IH. cbn [app] in IH.
+    replace (1 + Z.of_nat (length pre + 1)) with (1 + Z.of_nat (length pre) + 1) in IH by lia.
+    apply IH. lia.
+Qed.
+
+(** ** title *)
+Lemma lstrip_by_app f s b : lstrip_by f (s ++ b) = match lstrip_by f s with [] => lstrip_by f b | r => r ++ b end.
+Proof.
+  induction s as [|c s IH]; cbn [app lstrip_by]; [reflexivity|]. destruct (f c); [exact IH | reflexivity].
+Qed.
+Lemma strip_add_nl s : strip (add_nl s) = strip s.
+Proof.
+  unfold strip, strip_by, add_nl. rewrite lstrip_by_app. destruct (lstrip_by is_space s) as [|c r].
+  - reflexivity.
+  - apply rstrip_by_app_all. repeat constructor.
+Qed.
+Lemma title_add_nl s : title_of (add_nl s) = title_of s.
+Proof. unfold title_of. rewrite strip_add_nl. reflexivity. Qed.
+
+(** ** the parser on a block made of header, atom lines, bond lines, property lines *)
+Lemma parse_structured name l1 l2 counts AL BL PL na nb atoms bs st :
+  py_int (slice 0 3 counts) = Ok (Z.of_nat na) -> py_int (slice 3 6 counts) = Ok (Z.of_nat nb) -> na <> 0%nat ->
+  length AL = na -> length BL = nb ->
+  mapM v2_parse_atom AL = Ok atoms -> mapM v2_parse_bond BL = Ok bs ->
+  foldM v2_prop_line PL (mk_st atoms [] (concat (map snd bs)) false) = Ok st -> st_dat st = [] ->
+  parse_mol_v2000 (name :: l1 :: l2 :: counts :: AL ++ BL ++ PL) =
+  Ok (mk_parsed (title_of name) (st_atoms st) (map (fun x => fst (fst x)) bs) (concat (map (fun x => snd (fst x)) bs)) (st_log st)).
+Proof.
+  intros Hc1 Hc2 Hna HAL HBL Hat Hbs Hst Hdat.
+  unfold parse_mol_v2000. cbn [nth_error of_opt bind]. rewrite Hc1. cbn [bind]. rewrite Hc2. cbn [bind].
+  replace (Z.of_nat na =? 0) with false by (symmetry; apply Z.eqb_neq; lia).
+  replace ((Z.of_nat na <? 0) || (Z.of_nat nb <? 0)) with false
+    by (symmetry; apply orb_false_intro; apply Z.ltb_ge; lia).
+  cbv zeta. rewrite !Nat2Z.id.
+  change (name :: l1 :: l2 :: counts :: AL ++ BL ++ PL) with ([name; l1; l2; counts] ++ AL ++ BL ++ PL).
+  rewrite (lslice_mid [name; l1; l2; counts] AL (BL ++ PL) 4 na) by (reflexivity || assumption).
+  rewrite Hat. cbn [bind].
+  replace ([name; l1; l2; counts] ++ AL ++ BL ++ PL) with (([name; l1; l2; counts] ++ AL) ++ BL ++ PL)
+    by (rewrite <- app_assoc; reflexivity).
+  rewrite (lslice_mid ([name; l1; l2; counts] ++ AL) BL PL (4 + na) nb) by (try assumption; rewrite app_length, HAL; reflexivity).
+  rewrite Hbs. cbn [bind].
+  rewrite app_assoc. rewrite (skipn_app_exact _ PL (4 + na + nb)) by (rewrite !app_length, HAL, HBL; reflexivity).
+  rewrite Hst. cbn [bind]. rewrite Hdat. cbn [map foldM bind fst snd]. reflexivity.
+Qed.
+
+(** ** the writer on a non-empty molecule whose atom numbers fit the field *)
+Lemma write_mol_v2000_unfold mapping g :
+  wm_atoms g <> [] -> existsb (fun a => 999 <? wa_num a) (wm_atoms g) = false ->
+  write_mol_v2000 mapping g =
+    (do al <- mapM (v2_atom_line mapping) (wm_atoms g);
+     do wl <- mapM (v2_wedge_line (index_map (wm_atoms g)) (wm_bonds g)) (wm_wedge g);
+     do bl <- mapM (v2_plain_line (index_map (wm_atoms g))) (plain_bonds g);
+     Ok ([wm_name g; []; []; v2_counts_line (Z.of_nat (length (wm_atoms g))) (Z.of_nat (length (wm_bonds g)))] ++
+         al ++ wl ++ bl ++ prop_lines_of 1 (wm_atoms g) ++ [L "M  END"])).
+Proof.
+  intros Hne Hex. unfold write_mol_v2000, prop_lines_of. rewrite Hex.
+  destruct (wm_atoms g); [contradiction | reflexivity].
+Qed.
+
+Lemma Forall2_in_l {A B} (R : A -> B -> Prop) l l' x : Forall2 R l l' -> In x l -> exists y, R x y.
+Proof.
+  induction 1 as [|a b l l' Hab _ IH]; intros Hin; [contradiction|].
+  destruct Hin as [<-|Hin]; [exists b; exact Hab | apply IH; exact Hin].
+Qed.
+
+Lemma Forall2_imp {A B} (R1 R2 : A -> B -> Prop) l l' :
+  (forall a b, R1 a b -> R2 a b) -> Forall2 R1 l l' -> Forall2 R2 l l'.
+Proof. intros H. induction 1; constructor; auto. Qed.
+
+Theorem v2000_fields_roundtrip mapping g fs :
+  Forall2 wf_atom (wm_atoms g) fs ->
+  wm_atoms g <> [] ->
+  (length (wm_atoms g) <= 999)%nat ->
+  (length (wm_bonds g) <= 999)%nat ->
+  NoDup (map wa_num (wm_atoms g)) ->
+  Forall (bond_ok (wm_atoms g)) (wm_bonds g) ->
+  Forall (wedge_ok (wm_atoms g) (wm_bonds g)) (wm_wedge g) ->
+  (length (wm_wedge g) + length (plain_bonds g) = length (wm_bonds g))%nat ->
+  exists lines, write_mol_v2000 mapping g = Ok lines /\
+    parse_mol_v2000 (map add_nl lines) =
+    Ok (mk_parsed (title_of (wm_name g))
+                  (map2 (expected_atom mapping) (wm_atoms g) fs)
+                  (map (exp_wedge_bond (wm_atoms g) (wm_bonds g)) (wm_wedge g) ++ map (exp_plain_bond (wm_atoms g)) (plain_bonds g))
+                  (map (exp_wedge_stereo (wm_atoms g)) (wm_wedge g))
+                  []).
+Proof.
+  intros Hwf Hne Hna Hnb Hnd Hb Hw Hcnt.
+  assert (Hex : existsb (fun a => 999 <? wa_num a) (wm_atoms g) = false).
+  { apply not_true_iff_false. intros H. apply existsb_exists in H. destruct H as [a [Hin Hgt]].
+    destruct (Forall2_in_l _ _ _ _ Hwf Hin) as [f [W _]]. destruct W. apply Z.ltb_lt in Hgt. lia. }
+  (* atom lines *)
+  destruct (mapM_write_parse2 (v2_atom_line mapping) v2_parse_atom (raw_atom3 mapping) (wm_atoms g) fs) as [al [Hal [Hlal Hpal]]].
+  { eapply Forall2_imp; [|exact Hwf]. intros a f [W _].
+    destruct (v2_atom_roundtrip mapping a _ _ _ W) as [line [Hl Hp]]. exists line. split; [exact Hl|].
+    unfold add_nl. rewrite Hp. reflexivity. }
+  (* bond lines: wedged bonds first, then the others *)
+  set (gw := fun w => (exp_wedge_bond (wm_atoms g) (wm_bonds g) w, [exp_wedge_stereo (wm_atoms g) w], @nil str)).
+  set (gp := fun b => (exp_plain_bond (wm_atoms g) b, @nil (Z * Z * Z), @nil str)).
+  destruct (mapM_write_parse (v2_wedge_line (index_map (wm_atoms g)) (wm_bonds g)) v2_parse_bond gw (wm_wedge g)) as [wl [Hwl [Hlwl Hpwl]]].
+  { eapply Forall_impl; [|exact Hw]. intros w Hw'. unfold add_nl. apply wedge_line_roundtrip; assumption. }
+  destruct (mapM_write_parse (v2_plain_line (index_map (wm_atoms g))) v2_parse_bond gp (plain_bonds g)) as [bl [Hbl [Hlbl Hpbl]]].
+  { apply Forall_forall. intros b Hin. unfold plain_bonds in Hin. apply filter_In in Hin. destruct Hin as [Hin _].
+    rewrite Forall_forall in Hb. unfold add_nl. apply plain_line_roundtrip; auto. }
+  rewrite write_mol_v2000_unfold by assumption. rewrite Hal, Hwl, Hbl. cbn [bind].
+  eexists. split; [reflexivity|].
+  set (bs := map gw (wm_wedge g) ++ map gp (plain_bonds g)).
+  assert (Hlog : concat (map snd bs) = []).
+  { subst bs gw gp. rewrite map_app, concat_app, !map_map. cbn [snd]. rewrite !concat_map_nil. reflexivity. }
+  replace (map add_nl ([wm_name g; []; []; v2_counts_line (Z.of_nat (length (wm_atoms g))) (Z.of_nat (length (wm_bonds g)))] ++
+                       al ++ wl ++ bl ++ prop_lines_of 1 (wm_atoms g) ++ [L "M  END"]))
+    with (add_nl (wm_name g) :: add_nl [] :: add_nl [] ::
+          add_nl (v2_counts_line (Z.of_nat (length (wm_atoms g))) (Z.of_nat (length (wm_bonds g)))) ::
+          map add_nl al ++ map add_nl (wl ++ bl) ++ map add_nl (prop_lines_of 1 (wm_atoms g) ++ [L "M  END"]))
+    by (rewrite !map_app, <- !app_assoc; reflexivity).
+  destruct (v2_counts_roundtrip (Z.of_nat (length (wm_atoms g))) (Z.of_nat (length (wm_bonds g))) [nl]) as [Hc1 Hc2]; [lia | lia |].
+  rewrite (parse_structured _ _ _ _ _ _ _ (length (wm_atoms g)) (length (wm_bonds g))
+             (map2 (raw_atom3 mapping) (wm_atoms g) fs) bs
+             (mk_st (map2 (expected_atom mapping) (wm_atoms g) fs) [] [] true)).
+  - rewrite title_add_nl. cbn [st_atoms st_log]. f_equal. f_equal.
+    + subst bs gw gp. rewrite map_app, !map_map. cbn [fst snd]. reflexivity.
+    + subst bs gw gp. rewrite map_app, concat_app, !map_map. cbn [fst snd].
+      rewrite concat_map_single, concat_map_nil, app_nil_r. reflexivity.
+  - exact Hc1.
+  - exact Hc2.
+  - intros E. apply length_zero_iff_nil in E. contradiction.
+  - rewrite map_length. exact Hlal.
+  - rewrite map_length, app_length, Hlwl, Hlbl. exact Hcnt.
+  - exact Hpal.
+  - rewrite map_app. apply mapM_app; assumption.
+  - rewrite Hlog, map_app.
+    pose proof (props_block mapping [] [] (wm_atoms g) fs Hwf [] (map add_nl [L "M  END"])) as P.
+    cbn [length app] in P. change (1 + Z.of_nat 0) with 1 in P. rewrite P by (cbn [Nat.add]; lia).
+    cbn [map foldM]. unfold add_nl. rewrite v2_prop_end by reflexivity. reflexivity.
+  - reflexivity.
+Qed.
+
+(** ** a concrete instance: the hypotheses are satisfiable by a molecule with a charge +4 atom, an isotope, a radical,
+       a wedged bond, an order-8 bond and atom numbers that are not their positions *)
+Definition ex_mol : wmol :=
+  mk_wmol (L " test mol ")
+    [ mk_watom 7 (L "C") (L "    0.0000") (L "    1.2500") (L "    0.0000") 4 None false;
+      mk_watom 3 (L "Cl") (L "   -1.5000") (L "    0.0000") (L "    0.2500") (-1) (Some 37) false;
+      mk_watom 12 (L "N") (L "    1.5000") (L "   -0.7500") (L "    0.0000") 0 None true ]
+    [ (7, 3, -1) ]
+    [ (3, 7, 1); (12, 3, 8) ].
+Definition ex_fs : list (fval * fval * fval) :=
+  [ (FDec 0 (-4), FDec 12500 (-4), FDec 0 (-4));
+    (FDec (-15000) (-4), FDec 0 (-4), FDec 2500 (-4));
+    (FDec 15000 (-4), FDec (-7500) (-4), FDec 0 (-4)) ].
+Definition ex_parsed : parsed :=
+  mk_parsed (Some (L "test mol"))
+    [ mk_patom (L "C") 4 None 7 (FDec 0 (-4)) (FDec 12500 (-4)) (FDec 0 (-4)) None false None;
+      mk_patom (L "Cl") (-1) (Some 37) 3 (FDec (-15000) (-4)) (FDec 0 (-4)) (FDec 2500 (-4)) None false None;
+      mk_patom (L "N") 0 None 12 (FDec 15000 (-4)) (FDec (-7500) (-4)) (FDec 0 (-4)) None true None ]
+    ([(0, 1, 1); (2, 1, 8)]) ([(0, 1, -1)]) (@nil str).
+
+Lemma ex_hypotheses :
+  Forall2 wf_atom (wm_atoms ex_mol) ex_fs /\ wm_atoms ex_mol <> [] /\
+  (length (wm_atoms ex_mol) <= 999)%nat /\ (length (wm_bonds ex_mol) <= 999)%nat /\
+  NoDup (map wa_num (wm_atoms ex_mol)) /\
+  Forall (bond_ok (wm_atoms ex_mol)) (wm_bonds ex_mol) /\
+  Forall (wedge_ok (wm_atoms ex_mol) (wm_bonds ex_mol)) (wm_wedge ex_mol) /\
+  (length (wm_wedge ex_mol) + length (plain_bonds ex_mol) = length (wm_bonds ex_mol))%nat.
+Proof.
+  split; [|split; [|split; [|split; [|split; [|split; [|split]]]]]].
+  - unfold ex_mol, ex_fs. cbn [wm_atoms].
+    repeat (apply Forall2_cons || apply Forall2_nil);
+      (split; [constructor; cbn [fst snd wa_x wa_y wa_z wa_sym wa_chg wa_num];
+               try (vm_compute; reflexivity); try (repeat constructor); try lia; try (cbn; lia)
+              | unfold iso_ok; cbn; try exact I; lia]).
+  - discriminate.
+  - cbn. lia.
+  - cbn. lia.
+  - cbn. repeat (apply NoDup_cons || apply NoDup_nil); cbn; lia.
+  - unfold bond_ok. repeat (apply Forall_cons || apply Forall_nil); cbn; lia.
+  - unfold wedge_ok. repeat (apply Forall_cons || apply Forall_nil). cbn [fst snd].
+    split; [cbn; lia|]. split; [cbn; lia|]. eexists. vm_compute. reflexivity.
+  - vm_compute. reflexivity.
+Qed.
+
+Example ex_roundtrip :
+  exists lines, write_mol_v2000 true ex_mol = Ok lines /\ parse_mol_v2000 (map add_nl lines) = Ok ex_parsed.
+Proof.
+  destruct ex_hypotheses as [H1 [H2 [H3 [H4 [H5 [H6 [H7 H8]]]]]]].
+  destruct (v2000_fields_roundtrip true ex_mol ex_fs H1 H2 H3 H4 H5 H6 H7 H8) as [lines [Hw Hp]].
+  exists lines. split; [exact Hw|]. rewrite Hp. vm_compute. reflexivity.
+Qed.
+
+(* the same by direct evaluation of the two models *)
+Example ex_roundtrip_computed :
+  match write_mol_v2000 true ex_mol with Ok l => parse_mol_v2000 (map add_nl l) | Err e => Err e end = Ok ex_parsed.
+Proof. vm_compute. reflexivity. Qed.
+
+Print Assumptions v2000_fields_roundtrip.
+Print Assumptions ex_roundtrip.
